@@ -63,9 +63,23 @@ func switchArms(fn *ssa.Function, isTag func(v ssa.Value) bool) (arms []*caseArm
 
 // callsIn: static callees called in block b and the blocks it dominates (stopping at other arms).
 func callsUnder(b *ssa.BasicBlock, stop map[*ssa.BasicBlock]bool) []*ssa.Call {
+	// everything control can reach from the head of the case without entering another case: the body of the case and
+	// what follows the switch (a Write hoisted behind it belongs to every case)
+	reach := map[*ssa.BasicBlock]bool{b: true}
+	work := []*ssa.BasicBlock{b}
+	for len(work) > 0 {
+		x := work[len(work)-1]
+		work = work[:len(work)-1]
+		for _, s := range x.Succs {
+			if !reach[s] && !stop[s] {
+				reach[s] = true
+				work = append(work, s)
+			}
+		}
+	}
 	var out []*ssa.Call
 	for _, x := range b.Parent().Blocks {
-		if x != b && (!b.Dominates(x) || stop[x]) {
+		if !reach[x] {
 			continue
 		}
 		for _, ins := range x.Instrs {
@@ -342,9 +356,42 @@ func ruleCLIDispatch(only ...string) func(p *Prog, l *Ledger, tier string) {
 			return sc != nil && sc.String() == "github.com/asticode/go-astikit.FlagCmd"
 		}
 		arms, _, _ := switchArms(fn, isCmd)
+		// a case without a body of its own jumps to the block where the cases meet: that block belongs to every case
+		dispatch := map[*ssa.BasicBlock]bool{}
+		for _, a := range arms {
+			if a.iff != nil {
+				dispatch[a.iff.Block()] = true
+			}
+		}
 		stop := map[*ssa.BasicBlock]bool{}
 		for _, a := range arms {
-			stop[a.target] = true
+			join := false
+			for _, pb := range a.target.Preds {
+				if !dispatch[pb] {
+					join = true
+				}
+			}
+			if !join {
+				stop[a.target] = true
+			}
+		}
+		// operations applied before the switch apply to every sub-command
+		var before []*ssa.Call
+		for _, b := range fn.Blocks {
+			all := len(dispatch) > 0
+			for d := range dispatch {
+				if !b.Dominates(d) { // the block of the first case test dominates itself: what precedes the test counts
+					all = false
+				}
+			}
+			if !all {
+				continue
+			}
+			for _, ins := range b.Instrs {
+				if c, ok := ins.(*ssa.Call); ok && c.Call.StaticCallee() != nil {
+					before = append(before, c)
+				}
+			}
 		}
 		found := map[string]*caseArm{}
 		for _, a := range arms {
@@ -377,9 +424,12 @@ func ruleCLIDispatch(only ...string) func(p *Prog, l *Ledger, tier string) {
 				l.Fail(rule, "main.main", key, "", "sub-command "+cmd+" has no case in main")
 				continue
 			}
+			wasStop := stop[arm.target]
 			delete(stop, arm.target)
-			calls := callsUnder(arm.target, stop)
-			stop[arm.target] = true
+			calls := append(append([]*ssa.Call{}, before...), callsUnder(arm.target, stop)...)
+			if wasStop {
+				stop[arm.target] = true
+			}
 			var ops []*ssa.Call
 			var write *ssa.Call
 			for _, c := range calls {
@@ -417,8 +467,8 @@ func ruleCLIDispatch(only ...string) func(p *Prog, l *Ledger, tier string) {
 						problems = append(problems, fmt.Sprintf("argument %d of %s is flag variable %q, expected %q", i+1, exp.method, got, fv))
 					}
 				}
-				if write != nil && !instrDominates(ops[0], write) {
-					problems = append(problems, "writes the output before applying the operation")
+				if write != nil && !(instrDominates(ops[0], write) || (instrReaches(ops[0], write) && !instrReaches(write, ops[0]) && !reachesAvoiding(arm.target, write.Block(), ops[0].Block()))) {
+					problems = append(problems, "can write the output without having applied the operation (the call does not lie on every path from the case to Write)")
 				}
 			}
 			if write == nil {
@@ -751,4 +801,27 @@ func caseSensitiveNameTests(p *Prog, fn *ssa.Function) []ssa.Instruction {
 		}
 	}
 	return out
+}
+
+// reachesAvoiding: control can go from the head of block from to block to without entering block avoid.
+func reachesAvoiding(from, to, avoid *ssa.BasicBlock) bool {
+	if from == avoid {
+		return false
+	}
+	seen := map[*ssa.BasicBlock]bool{from: true}
+	work := []*ssa.BasicBlock{from}
+	for len(work) > 0 {
+		x := work[len(work)-1]
+		work = work[:len(work)-1]
+		if x == to {
+			return true
+		}
+		for _, s := range x.Succs {
+			if !seen[s] && s != avoid {
+				seen[s] = true
+				work = append(work, s)
+			}
+		}
+	}
+	return false
 }
